@@ -652,7 +652,9 @@ void makeInfeasible(Rng &r, CircuitSpec &s, int H) {
       if (!s.cells[i].fixed && !Snapshot::isTurned(s.cells[i].orient)) mov.push_back(i);
     if (!mov.empty()) {
       CellSpec &k = s.cells[mov[r.below(mov.size())]];
-      k.h = (H >= 2 && r.chance(0.7)) ? (int)r.range(1, H - 1) : 0;
+      // not much lower than a row: the density grid sizes its bins by the smallest positive
+      // cell height, a cell thousands of times lower than the rows means tens of millions of bins
+      k.h = (H >= 2 && r.chance(0.7)) ? (int)r.range(std::max(1, H / 3), H - 1) : 0;
     }
   } else if (mode == 4) {
     // every row completely covered by a fixed obstruction: no free space at all
